@@ -255,6 +255,9 @@ class Engine(CoreMixin, ExprMixin, CallMixin, LibMixin, StmtMixin, ReMixin):
         con = self.contract
         ex = o.val
         self.apply_ghost_update(con.ghost_update_exc, o.st)
+        if ex.payload is not None and ex.payload.ty.kind == "excobj":
+            self.params_env = dict(self.params_env)
+            self.params_env["exc"] = SV(Ref(ex.payload.ty.cls), ex.payload.ts)
         names = [n for n in con.raises]
         known = [n if n != "*" else "BaseException" for n in names]
         allowed = self.exc_matches(ex, known) if known else smt.FALSE
